@@ -25,12 +25,17 @@ META = {
              "0..5 documents per call, every separator style, slice and reader with random read schedules, refused documents, "
              "trailing garbage). The oracle checks on the implementation that N documents (N = 0..500, documents ending on and "
              "straddling 8 KiB / 16 KiB buffer boundaries) come out as N documents for an independent reader of the target, "
-             "and that the CLI given several files in mixed formats prints the concatenation.",
+             "and that the CLI given several files in mixed formats prints the concatenation. The YAML chunker (src/yaml/chunker.rs) "
+             "is modelled over libyaml's event stream and proved to yield exactly one chunk per document, in order, covering the "
+             "stream with no byte lost or duplicated, and never to panic, for every well-formed event stream; that model is diffed "
+             "against the real chunker through the hooks on every short YAML token sequence and seeded multi-document streams.",
     "level_note": "Trusted: Coq kernel; hand-written model validated by correspondence. The document iterators of the source "
                   "formats (serde_json stream, the MessagePack loops, the libyaml chunker) are third-party or modelled "
                   "elsewhere (C02/C18); here they are observed through the oracle. No axioms.",
     "trusted_base": [
         "Coq 8.16.1 kernel (coqc, full .vo build); no axioms (Print Assumptions: closed under the global context)",
+        "hand-written Gallina model coq/theories/ChunkerModel.v of src/yaml/chunker.rs over libyaml's event stream (third party, "
+        "observed through the hook xt::verif::yaml_events), tied to the code by the chunker correspondence",
         "hand-written Gallina model coq/theories/FormatsModel.v of the Translator/Output layer, tied to the code by the "
         "history correspondence (tools/history.py: single-document runs give each document's serializer bytes, the model "
         "predicts the writer bytes and verdicts of every history)",
@@ -243,6 +248,19 @@ def run(outcome, tier, seed):
                     "CLI oracle: each multi-file invocation")
     rng = random.Random(seed + 3)
     history.correspondence(outcome, tier, seed, STREAMING, rng, 400 if tier == "thorough" else 60)
+    if outcome.hooks_available:
+        st = shared.harness_corr(outcome, "chunker", "YAML chunker (libyaml event stream -> chunks)", tier, seed)
+        for f in st["oracle_failures"]:
+            outcome.oracle_failures.append({"what": "YAML chunker: " + f.split(" :: ", 1)[-1], "input_hex": f.split(" :: ", 1)[0]})
+        outcome.distinct_nontrivial += st["nontrivial"]
+        outcome.extra["chunker_correspondence"] = {
+            "cases": st["cases"], "kinds": st["kinds"], "documents_per_stream_histogram": st["docs_hist"],
+            "bound": "every YAML token sequence up to length %d over a 24-token alphabet, built-in documents, seeded multi-document "
+                     "streams with every separator style, padding to 8 KiB/16 KiB boundaries and planted damage; each under a "
+                     "random read schedule; events from the hook xt::verif::yaml_events, chunks from xt::verif::yaml_chunks"
+                     % (4 if tier == "thorough" else 3)}
+    else:
+        outcome.notes.append("verif hooks unavailable: chunker correspondence not run")
     run_count_oracle(outcome, tier, seed)
     run_boundary_oracle(outcome, tier, seed)
     run_cli_oracle(outcome, tier, seed)
